@@ -122,7 +122,7 @@ func c17Apply(tx *bbolt.Tx, w c17Wop) error {
 
 var errC17Rollback = errors.New("c17: requested rollback")
 
-var c17ListenerWait = 3 * time.Second
+var c17ListenerWait = 15 * time.Second // generous: a slow disk must not look like a stuck listener
 
 // ---- canonical dump -------------------------------------------------------------------------
 
@@ -1299,8 +1299,8 @@ func runC17Race(o *opts) error {
 			last, lastChange = p, time.Now()
 		}
 		stalled := time.Since(lastChange)
-		if stalled > 3*time.Second {
-			res.Stuck = fmt.Sprintf("mode %s: no transaction and no restore completed for 3s after %d transactions and %d restores", mode, atomic.LoadInt64(&txs), atomic.LoadInt64(&restores))
+		if stalled > 15*time.Second {
+			res.Stuck = fmt.Sprintf("mode %s: no transaction and no restore completed for 15s after %d transactions and %d restores", mode, atomic.LoadInt64(&txs), atomic.LoadInt64(&restores))
 			break
 		}
 		// past the deadline: stop only while things are moving, otherwise wait for the watchdog's verdict
